@@ -40,7 +40,7 @@ META = {
 }
 
 FIELD_NAMES = ["a", "b_", "some_field"]
-TKEYS = ["int", "str", "optint5", "listint", "nested", "bool"]
+TKEYS = ["int", "str", "optint5", "listint", "nested", "bool", "enum"]
 
 
 PRIVATE_NAMES = ["_a", "b", "_c"]     # kinds with private names only: dataclass, attrs (parameter a, field _a), TypedDict
